@@ -54,6 +54,7 @@ _COMMON = {
     "prepared_read": "prepared_shortest_distance read after prepare()",
 }
 _COMMON["prepared_twice"] = "prepare() was called on a network that already held a table from an earlier prepare() with another cut-off"
+_COMMON["sub_network_and_parent_both_queried"] = "a distance was asked of an extracted sub-network (first query), and of its parent after a search on the sub-network"
 _COMMON["sub_network_extracted"] = "sub_network() was called on the network between queries"
 OBLIGATIONS = {"all": dict(_COMMON, **pqueue.OBLIGATIONS), "quick": {}, "thorough": {}}
 
@@ -151,6 +152,8 @@ def fire(g, ev):
         return guard(_prepare_and_read, g, ev[1])
     if k == "sub":
         st, val = guard(g.net.sub_network, g.args[ev[1]], ev[2], "TOPOLOGIC", False)
+        if st == "ok":
+            guard(val.all_shortest_distances)      # the extracted network is used too (it shares Node objects with its parent)
         return (st, None if st == "ok" else val)
     raise RuntimeError("unknown event %r" % (ev,))
 
@@ -326,6 +329,12 @@ def explore_graph(variant, nn, edges, W, depth, ctx):
         v = verdict(g, O, ev, res, hist)
         if v is not None:
             ctx.violation(key_of(v, root_ok.get(ev, False)), _case(variant, nn, edges, hist, ev), {"failure": v[3], "ids": g.ids})
+    if len(edges) >= 2:
+        for side in ("sub", "parent"):
+            for s_ in range(nn):
+                for t_ in range(nn):
+                    if s_ != t_:
+                        check_subnet(variant, nn, edges, side, s_, t_, ctx)
     if closed == 2:
         ctx.count("graphs_closed_at_depth_2")       # informative: says something about the implementation, not the input
     elif depth >= 2:
@@ -342,6 +351,48 @@ def explore_graph(variant, nn, edges, W, depth, ctx):
     if any(O.multi.values()):
         ctx.oblige("two_edge_shortest_walk")
     return O, n_states
+
+
+# ---- a network and the sub-network extracted from it share their Node objects: each must go on answering correctly ------
+def check_subnet(variant, nn, edges, side, s, t, ctx):
+    """side "sub": sub = net.sub_network(node 0, no cut-off); the FIRST query asked of `sub` is shortest_distance(s, t), judged
+    against Floyd-Warshall over the edges `sub` actually holds.  side "parent": the same extraction, then a search on the parent
+    that stops at once (source == target), then a full search on `sub`, then shortest_distance(s, t) on the parent."""
+    case = {"kind": "subnet", "variant": variant, "nn": nn, "edges": [list(e) for e in edges], "side": side, "s": s, "t": t}
+    g = Graph(variant, nn, edges, nvert=2)
+    st, sub = guard(g.net.sub_network, g.args[0], 1e300, "TOPOLOGIC", False)
+    ctx.transition(3)
+    if st != "ok":
+        return            # judged nowhere: extraction itself is not an observation of this property
+    held = [k for k, e in enumerate(g.edge_objs) if e.id in sub.EDGES]
+    inside = [i for i in range(nn) if g.ids[i] in sub.NODES]
+    if s not in inside or t not in inside:
+        return
+    if side == "sub":
+        O2 = Oracle(nn, tuple(edges[k] for k in held))
+        exp = O2.D[s][t]
+        st, val = guard(sub.shortest_distance, g.args[s], g.args[t])
+        site = "shortest_distance/on-a-sub-network"
+    else:
+        exp = Oracle(nn, edges).D[s][t]
+        guard(g.net.shortest_distance, g.args[s], g.args[s])
+        guard(sub.all_shortest_distances)
+        st, val = guard(g.net.shortest_distance, g.args[s], g.args[t])
+        site = "shortest_distance/parent-after-a-search-on-its-sub-network"
+    ctx.case(len(held) >= 2)
+    ctx.oblige("sub_network_and_parent_both_queried")
+    if st != "ok":
+        ctx.violation("%s/%s" % (site, "does-not-return" if st == "hang" else "raises"), case, val)
+        return
+    if not is_number(val) or val != val:
+        ctx.violation(site + "/malformed-result", case, {"got": repr(val)[:100]})
+    elif exp == INF:
+        if not val < 0:
+            ctx.violation(site + "/unreachable-target/non-negative-value", case, {"got": val})
+    elif val < 0 or not close(val, exp):
+        ctx.violation(site + "/reachable-target/wrong-distance", case, {"got": val, "expected": exp, "edges_of_the_sub_network": held})
+    else:
+        ctx.outcome(("subnet", side, exp))
 
 
 def run_shard(shard, ctx):
@@ -371,6 +422,8 @@ def run_shard(shard, ctx):
 def replay(case, ctx):
     if case.get("kind") == "pq":
         return pqueue.replay(case, ctx)
+    if case.get("kind") == "subnet":
+        return check_subnet(case["variant"], case["nn"], tuple(tuple(e) for e in case["edges"]), case["side"], case["s"], case["t"], ctx)
     variant, nn = case["variant"], case["nn"]
     edges = tuple(tuple(e) for e in case["edges"])
     hist = tuple(tuple(h) for h in case["hist"])
